@@ -126,6 +126,14 @@ def check(ctx):
                         fs = p.fields()
                         if len(fs) >= 2 and fs[0] == "self" and "*" in p.proj:
                             read.add(fs[1])
+                        elif fs and "*" in p.proj:
+                            # through a reference held in a local (e.g. the `self` of a helper merged into this body)
+                            base = an.local_expr(p.local, (b.idx, b.stmts.index(s)), 0)
+                            root = flow.strip(base)
+                            while root[0] in ("ref", "deref", "mut"):
+                                root = flow.strip(root[1])
+                            if (root[0] == "field" and root[2] == "self" and flow.strip(root[1])[0] == "env") or (root[0] == "param" and root[2] == "self"):
+                                read.add(fs[0])
             t = b.term
             if t.kind == "switch" and t.discr.place is not None:
                 pass
